@@ -308,6 +308,17 @@ impl<'a> Iterator for Tokenizer<'a> {
     }
 }
 
+/// Debug rendering and end offset (in bytes) of every token of the input
+#[cfg(feature = "verif")]
+pub(crate) fn verif_tokens(input: &str) -> Vec<(std::string::String, usize)> {
+    let mut tokenizer = Tokenizer::new(input);
+    let mut tokens = Vec::new();
+    while let Some(t) = tokenizer.next() {
+        tokens.push((format!("{t:?}"), tokenizer.offset()));
+    }
+    tokens
+}
+
 /// True if `c` is considered a whitespace according to Rust language definition.
 /// See [Rust language reference](https://doc.rust-lang.org/reference/whitespace.html)
 /// for definitions of these classes.
